@@ -4,7 +4,7 @@
 import warnings
 from collections import OrderedDict
 
-from .algorithm import fill_in_let, expand_macros
+from .algorithm import fill_in_let, expand_macros, expand_subcircuits
 from .algorithm.walkers import *
 
 
@@ -20,7 +20,7 @@ def parse_jaqal_output_list(circuit, output):
     :returns: The parsed output.
     :rtype: ExecutionResult
     """
-    circuit = expand_macros(fill_in_let(circuit))
+    circuit = expand_macros(fill_in_let(expand_subcircuits(circuit)))
     visitor = DiscoverSubcircuits()
     w = OutputParser(visitor.visit(circuit), output)
     w.visit(circuit)
